@@ -87,6 +87,51 @@ fn conservation(run: &comp::Run, mods: Option<&[Module]>, model: Option<&ModuleS
             });
         }
     }
+    // ... and every definition must have been read as the kind of definition it is (a value that is taken for an information
+    // object counts as "silent by documentation" below and would vanish unnoticed)
+    if let Some(set) = model {
+        let classes: BTreeSet<&str> = set.modules.iter().flat_map(|m| m.assigns.iter()).filter_map(|a| match a {
+            Assign::Raw { name, tokens } if tokens.iter().any(|t| t == "CLASS") && tokens.get(1).is_some_and(|t| t == "::=") => Some(name.as_str()),
+            _ => None,
+        }).collect();
+        for m in &set.modules {
+            for a in &m.assigns {
+                let expected = match a {
+                    Assign::Type { .. } => "Type",
+                    Assign::Value { .. } => "Value",
+                    Assign::Raw { name, tokens } => {
+                        let upper = name.starts_with(|c: char| c.is_uppercase());
+                        let governed_by_class = tokens.get(1).is_some_and(|t| classes.contains(t.as_str()));
+                        if tokens.iter().any(|t| t == "MACRO") {
+                            continue;
+                        } else if upper && tokens.get(1).is_some_and(|t| t == "::=") && tokens.iter().any(|t| t == "CLASS") {
+                            "Class"
+                        } else if upper && !governed_by_class {
+                            "Type"
+                        } else if !upper && !governed_by_class {
+                            "Value"
+                        } else {
+                            continue;
+                        }
+                    }
+                };
+                let Some((kind, _)) = inv.lexed.get(&(m.name.clone(), a.name().to_string())) else { continue };
+                rep.count("definition_kinds_compared", 1);
+                if kind != expected {
+                    let governing = match a {
+                        Assign::Raw { tokens, .. } => tokens.get(1).cloned().unwrap_or_default(),
+                        _ => String::new(),
+                    };
+                    let gclass = if ["REAL", "RELATIVE-OID", "INTEGER", "BOOLEAN", "NULL", "EXTERNAL"].contains(&governing.as_str()) { "built-in-type-keyword" } else if !governing.is_empty() && governing.chars().all(|c| c.is_ascii_uppercase() || c.is_ascii_digit() || c == '-') { "type-reference-in-capitals" } else { "other" };
+                    rep.violations.push(Violation {
+                        sig: format!("c10|read-as-other-kind|{expected}-as-{kind}|governing={gclass}"),
+                        what: format!("definition {}.{} is a {expected} assignment, the compiler read it as {kind}{} [{origin}]", m.name, a.name(), if governing.is_empty() { String::new() } else { format!(" (governing type `{governing}`)") }),
+                        replay: json!({"origin": origin, "definition": a.name()}),
+                    });
+                }
+            }
+        }
+    }
     for ((module, name), (kind, parameterized)) in &inv.lexed {
         rep.count("definitions_accounted", 1);
         let key = (module.clone(), name.clone());
@@ -312,6 +357,11 @@ fn check_g(seed: u64, idx: u64, rep: &mut Report) {
         m0.push(raw("maxRetries", "maxRetries INTEGER ::= 4"));
         m0.push(raw("CLSX9", "CLSX9 ::= CLASS { &id INTEGER UNIQUE } WITH SYNTAX { ID &id }"));
         m0.push(raw("vcf9", "vcf9 CLSX9.&id ::= 5"));
+        // braced values whose governing type is spelled in capitals (a keyword, a user type): they are values, not objects
+        m0.push(raw("vro9", "vro9 RELATIVE-OID ::= { 1 2 }"));
+        m0.push(raw("vre9", "vre9 REAL ::= { mantissa 1 , base 10 , exponent 0 }"));
+        m0.push(raw("PDUX9", "PDUX9 ::= SEQUENCE { a INTEGER , b BOOLEAN }"));
+        m0.push(raw("vpd9", "vpd9 PDUX9 ::= { a 1 , b TRUE }"));
         let run = comp::rasn(&[extra.render().text], &cfg);
         rep.evaluations += 1;
         rep.count(&format!("extra_definition_compilations[{}]", run.out.status()), 1);
@@ -369,7 +419,15 @@ fn check_g(seed: u64, idx: u64, rep: &mut Report) {
         for (j, (mi, ai)) in picks.iter().enumerate() {
             replaced.insert(set.modules[*mi].assigns[*ai].name().to_string());
             let fk = rng.below(FAULTS.len());
-            faulted.modules[*mi].assigns[*ai] = fault_assign(fk, 9000 + trial * 10 + j);
+            let mut fa = fault_assign(fk, 9000 + trial * 10 + j);
+            // half of the type faults keep the name of the type they replace: its users then refer to a definition the
+            // compiler rejects (they are dependents, exempt from the locality comparison, but must still be accounted for)
+            if let (Assign::Type { name: old, .. }, Assign::Raw { name, tokens }, true) = (&set.modules[*mi].assigns[*ai], &mut fa, matches!(fk, 0 | 1 | 2 | 5) && rng.chance(1, 2)) {
+                tokens[0] = old.clone();
+                *name = old.clone();
+                rep.count("faults_that_keep_the_name_of_a_referenced_type", 1);
+            }
+            faulted.modules[*mi].assigns[*ai] = fa;
             fault_names.push(FAULTS[fk]);
         }
         // imports of replaced symbols would now dangle: drop them from the import lists (the importing definitions are dependents anyway)
